@@ -293,6 +293,8 @@ pub mod expression;
 pub mod permutation;
 pub mod qustate;
 pub mod vectorstate;
+#[cfg(feature = "verif")]
+pub mod verif;
 pub mod stabilizer;
 
 mod idhash;
